@@ -270,7 +270,7 @@ class Schema(dict, metaclass=LogicalMeta):
 
     def __post_init__(self, values, context: RuntimeContext):
         super().__init__(values)
-        self.__options__ = context.options  # set options
+        self.__options__ = context.declared_options  # set options
         for key, field in self.__parser__.property_fields.items():
             self.__coerce_property__(field, context=context)
         context.raise_error()  # raise error if there is any (before the user's hook: it only sees data that parsed)
